@@ -279,3 +279,84 @@ Proof. split; [apply no_keyword_nothing|apply event_needs_keyword]. Qed.
 Lemma no_keyword_no_metric c tok line wok ready :
   has_keyword line = false -> r_metrics (process c tok line wok ready) = [].
 Proof. intros H. rewrite no_keyword_nothing by assumption. reflexivity. Qed.
+
+(* ---------- C05: only accepted-authentication lines forward a login ---------- *)
+
+Definition accept_handler (h : handler) : bool :=
+  match h with h_processAcceptPublicKeyEntry | h_processAcceptedPasswordEntry => true | _ => false end.
+
+Lemma non_accept_no_forward h c tok line wok ready :
+  accept_handler h = false -> r_forwards (run_handler h c tok line wok ready) = [].
+Proof.
+  destruct h; cbn [accept_handler]; try discriminate; intros _; cbn [run_handler];
+    unfold h_simple, h_cert_invalid, h_invalid_user, write_only;
+    try match goal with |- context [find ?re line] => destruct (find re line) end; reflexivity.
+Qed.
+
+Lemma first_user_in l line h : first_user l line = Some h -> In h (map snd l).
+Proof.
+  induction l as [|[re h'] l IH]; cbn; [discriminate|].
+  destruct (matches re line); [intros [= ->]; left; reflexivity|]. intros H. right. apply IH. exact H.
+Qed.
+
+Lemma user_handlers_non_accept : forallb (fun h => negb (accept_handler h)) (map snd user_dispatch) = true.
+Proof. vm_compute. reflexivity. Qed.
+
+Definition target_non_accept (t : target) : bool :=
+  match t with THandler h => negb (accept_handler h) | TUserType => true end.
+
+Lemma dispatch_on_no_forward d c tok line wok ready :
+  forallb (fun e => target_non_accept (snd (fst e))) d = true ->
+  r_forwards (dispatch_on d c tok line wok ready) = [].
+Proof.
+  induction d as [|[[g t] ms] d IH]; cbn [dispatch_on forallb]; [reflexivity|].
+  intros H. apply andb_true_iff in H. destruct H as [Ht Hd]. cbn [fst snd] in Ht.
+  destruct (guard_holds g line); [|apply IH; exact Hd]. cbn [add_metrics r_forwards].
+  destruct t as [h|].
+  - apply non_accept_no_forward. cbn in Ht. apply negb_true_iff. exact Ht.
+  - destruct (first_user user_dispatch line) as [h|] eqn:E; [|reflexivity].
+    apply non_accept_no_forward. apply first_user_in in E.
+    pose proof user_handlers_non_accept as Hu. rewrite forallb_forall in Hu.
+    apply negb_true_iff. apply Hu. exact E.
+Qed.
+
+Theorem forward_needs_accept c tok line wok ready :
+  r_forwards (process c tok line wok ready) <> [] ->
+  has_prefix (s2l "Accepted publickey") line = true \/ has_prefix (s2l "Accepted password") line = true.
+Proof.
+  unfold process, dispatch. cbn [dispatch_on guard_holds].
+  destruct (has_prefix (s2l "Accepted publickey") line); [intros _; left; reflexivity|].
+  destruct (has_prefix (s2l "Accepted password") line); [intros _; right; reflexivity|].
+  intros H. exfalso. apply H.
+  assert (E : r_forwards (dispatch_on (skipn 2 dispatch) c tok line wok ready) = [])
+    by (apply dispatch_on_no_forward; vm_compute; reflexivity).
+  unfold dispatch in E. cbn [skipn dispatch_on guard_holds] in E. exact E.
+Qed.
+
+(* the forwarded login carries the pid of the line, and "unknown" or the certificate key id *)
+Theorem forward_content c tok line wok ready f :
+  In f (r_forwards (process c tok line wok ready)) ->
+  atoi tok = Some (f_pid f) /\ r_writes (process c tok line wok ready) = [f_src f] /\
+  (f_cred f = unknown \/ f_cred f = ev_user_id (f_src f)).
+Proof.
+  unfold process, dispatch. cbn [dispatch_on guard_holds].
+  destruct (has_prefix (s2l "Accepted publickey") line).
+  { cbn [add_metrics r_forwards r_writes run_handler]. unfold h_accept_publickey.
+    destruct (find loginRE line) as [mt|]; [|intros []].
+    destruct (atoi tok) as [pid|]; [|intros []].
+    destruct (Nat.eqb (length line) (m_end mt - m_start mt)).
+    - unfold write_forward. destruct wok; [|intros []]. destruct ready; [|intros []].
+      intros [<-|[]]. cbn. auto.
+    - destruct (length line <? m_end mt - m_start mt + 1); [intros []|].
+      destruct (find certIDRE _); unfold write_forward; (destruct wok; [|intros []]); (destruct ready; [|intros []]);
+        intros [<-|[]]; cbn; auto. }
+  destruct (has_prefix (s2l "Accepted password") line).
+  { cbn [add_metrics r_forwards r_writes run_handler]. unfold h_accept_password.
+    destruct (atoi tok) as [pid|]; [|intros []]. destruct (find passwordLoginRE line); [|intros []].
+    unfold write_forward. destruct wok; [|intros []]. destruct ready; [|intros []].
+    intros [<-|[]]. cbn. auto. }
+  intros H. exfalso.
+  assert (E : r_forwards (dispatch_on (skipn 2 dispatch) c tok line wok ready) = [])
+    by (apply dispatch_on_no_forward; vm_compute; reflexivity).
+  unfold dispatch in E. cbn [skipn dispatch_on guard_holds] in E. rewrite E in H. exact H.
+Qed.
